@@ -77,11 +77,11 @@ class Census(_Base):
     """records the ordered list of executed (file, func, line) LINE events and of CALL
     events (callee repr) inside the library"""
 
-    events = EV.LINE | EV.CALL
+    events = EV.LINE | EV.CALL | EV.PY_START
 
     def __init__(self, pkg_dir):
         super().__init__(pkg_dir)
-        self.trace = []  # ("L", file, func, line) | ("C", file, func, line, callee)
+        self.trace = []  # ("L", file, func, line) | ("C", file, func, line, callee) | ("S", file, func, line, callee)
 
     def register(self):
         base = len(self.pkg_dir)
@@ -97,8 +97,34 @@ class Census(_Base):
             name = getattr(callable_, "__qualname__", None) or getattr(callable_, "__name__", None) or repr(callable_)[:40]
             self.trace.append(("C", code.co_filename[base:], code.co_name, -1, name))
 
+        def on_start(code, offset):
+            # entry of a Python function OUTSIDE the library called directly from library code.  CPython 3.12 raises
+            # no CALL event for calls made with argument unpacking (f(*a, **k)); the callee's start still shows.
+            caller = _outside_callee(code, self.pkg_dir)
+            if caller is None:
+                return
+            self.trace.append(("S", caller.co_filename[base:], caller.co_name, -1, getattr(code, "co_qualname", code.co_name)))
+
         mon.register_callback(TOOL, EV.LINE, on_line)
         mon.register_callback(TOOL, EV.CALL, on_call)
+        mon.register_callback(TOOL, EV.PY_START, on_start)
+
+
+_OWN_DIR = os.path.dirname(os.path.dirname(os.path.abspath(__file__))) + os.sep
+
+
+def _outside_callee(code, pkg_dir):
+    """code object of the library frame that directly called the frame now starting, or None"""
+    fn = code.co_filename
+    if fn.startswith(pkg_dir) or fn.startswith(_OWN_DIR) or fn.startswith("<frozen importlib"):
+        return None  # (first-time imports are not part of the procedure's event sequence)
+    try:
+        f = sys._getframe(2).f_back  # on_start <- started frame <- caller
+    except ValueError:
+        return None
+    if f is None or not f.f_code.co_filename.startswith(pkg_dir):
+        return None
+    return f.f_code
 
 
 class FailAt(_Base):
@@ -111,7 +137,8 @@ class FailAt(_Base):
         self.n = 0
         self.fired = False
         self.where = None
-        self.events = EV.LINE | EV.CALL
+        self.event = None
+        self.events = EV.LINE | EV.CALL | EV.PY_START
         self.skip_callees = skip_callees
 
     def register(self):
@@ -125,6 +152,7 @@ class FailAt(_Base):
             if self.kind == "L" and i == self.index and not self.fired:
                 self.fired = True
                 self.where = "%s:%s:%d" % (code.co_filename[base:], code.co_name, line)
+                self.event = ("L", code.co_filename[base:], code.co_name, line)
                 raise InjectedFault("injected at line event %d (%s)" % (i, self.where))
 
         def on_call(code, offset, callable_, arg0):
@@ -136,10 +164,24 @@ class FailAt(_Base):
                 name = getattr(callable_, "__qualname__", None) or getattr(callable_, "__name__", None) or repr(callable_)[:40]
                 self.fired = True
                 self.where = "%s:%s:call %s" % (code.co_filename[base:], code.co_name, name)
+                self.event = ("C", code.co_filename[base:], code.co_name, -1, name)
                 raise InjectedFault("injected before call event %d (%s)" % (i, self.where))
+
+        def on_start(code, offset):
+            caller = _outside_callee(code, self.pkg_dir)
+            if caller is None:
+                return
+            i = self.n
+            self.n += 1
+            if self.kind == "S" and i == self.index and not self.fired:
+                self.fired = True
+                self.where = "%s:%s:entry of %s" % (caller.co_filename[base:], caller.co_name, getattr(code, "co_qualname", code.co_name))
+                self.event = ("S", caller.co_filename[base:], caller.co_name, -1, getattr(code, "co_qualname", code.co_name))
+                raise InjectedFault("injected at callee entry event %d (%s)" % (i, self.where))
 
         mon.register_callback(TOOL, EV.LINE, on_line)
         mon.register_callback(TOOL, EV.CALL, on_call)
+        mon.register_callback(TOOL, EV.PY_START, on_start)
 
 
 class YieldInjector(_Base):
